@@ -103,6 +103,9 @@ def sequential_events(rnd: random.Random, q: bool) -> list:
             if cal.min_year < 0:
                 a = rnd.choice([a, rnd.randint(1024, min(cal.max_year, 4000))])
                 choices += [a - 2048 * (a >> 10)] * 2 if a > 0 else [a - 2048 * (a >> 10)]
+            # ... and years a power of two apart (2^7 .. 2^14: a validity tag made of too few or the wrong bits of the year)
+            choices += [a + sgn * 2 ** j for j in range(7, 15) for sgn in (1, -1) if cal.min_year <= a + sgn * 2 ** j <= cal.max_year][:6]
+            rnd.shuffle(choices)
             b = rnd.choice(choices)
             if not (cal.min_year <= a <= cal.max_year and cal.min_year <= b <= cal.max_year):
                 continue
